@@ -37,6 +37,7 @@ import (
 	"context"
 	"errors"
 	"fmt"
+	"net/http"
 	"net/url"
 	"regexp"
 	"runtime"
@@ -48,6 +49,7 @@ import (
 
 	"git.arvados.org/arvados.git/internal/verifkit"
 	"git.arvados.org/arvados.git/sdk/go/arvados"
+	"git.arvados.org/arvados.git/sdk/go/httpserver"
 )
 
 // ---------------------------------------------------------------- case
@@ -90,6 +92,13 @@ type c20Fault struct {
 	K       int    `json:"call"` // per-backend call index
 	Kind    string `json:"kind"` // error | np-foreign | np-repeat | np-nouuid | np-othercluster | ctx-cancel
 	Sticky  bool   `json:"sticky,omitempty"`
+	// error: the HTTP status the injected error carries (0: a plain error
+	// without any status) and the error type that carries it: what the
+	// controller's own handlers return (httpserver.ErrorWithStatus) or what
+	// the rpc client returns for a non-2xx response of a remote
+	// (*arvados.TransactionError).
+	Status  int    `json:"status,omitempty"`
+	Carrier string `json:"carrier,omitempty"` // "" | httpserver | transaction
 	// ctx-cancel: the context that the harness passed to the List call is
 	// cancelled while this backend call is in flight, and the call then ends
 	// with the context's error (what an rpc/http client does when the request
@@ -293,6 +302,22 @@ type c20Item struct {
 var c20ErrInjected = errors.New("c20 injected backend error")
 var c20ErrCap = errors.New("c20 stub: call cap exceeded")
 
+// the statuses an injected backend error carries; 0 = plain error
+var c20ErrStatuses = []int{0, 404, 403, 422, 500, 503}
+
+// c20InjectedError builds the error a faulted backend call ends with.
+func c20InjectedError(f *c20Fault, b *c20Backend, method string) error {
+	if f.Status == 0 {
+		return c20ErrInjected
+	}
+	if f.Carrier == "transaction" {
+		u := b.BaseURL()
+		u.Path = "/arvados/v1/" + method + "s"
+		return &arvados.TransactionError{Method: "GET", URL: u, StatusCode: f.Status, Status: fmt.Sprintf("%d %s", f.Status, http.StatusText(f.Status)), Errors: []string{"c20 injected backend error"}}
+	}
+	return httpserver.ErrorWithStatus(c20ErrInjected, f.Status)
+}
+
 // c20OthersDone: every other backend has answered as many calls as in the
 // fault-free run. Caller holds r.mu.
 func (r *c20Run) c20OthersDone(self string) bool {
@@ -403,7 +428,7 @@ func (b *c20Backend) serve(ctx context.Context, method string, o arvados.ListOpt
 		r.fired = true
 		r.calls[ci].Fault = f.Kind
 		if f.Kind == "error" {
-			return fin(nil, c20ErrInjected)
+			return fin(nil, c20InjectedError(f, b, method))
 		}
 		if f.Kind == "ctx-cancel" {
 			if f.Wait == "after-others" && !r.c20OthersDone(b.spec.ID) {
@@ -704,6 +729,11 @@ type c20Witness struct {
 // c20Stats are the observations without which a run decides nothing.
 type c20Stats struct {
 	faultsFired, f1Judged, f3Rejected, unknownErrors, ctxCancelAfterOthers int
+	// injected errors that fired, by the HTTP status they carried (0: none),
+	// and those with a status that hit a first call / a later call (the
+	// cluster was in the middle of paging) of the local / of a remote cluster
+	errStatusFired                                                map[int]int
+	errStatusFirst, errStatusMid, errStatusLocal, errStatusRemote int
 }
 
 type c20Judge struct {
@@ -714,6 +744,54 @@ type c20Judge struct {
 	fault *c20Fault
 	r     *c20Run
 	out   c20Out
+	// error faults are injected once per status at the same backend call: the
+	// caller gathers which of them were swallowed and reports them together
+	// (so that the signature names the statuses that are necessary)
+	gatherErr bool
+	errFired  bool
+	swallowed bool
+	missing   int // requested existing objects absent from the successful answer
+}
+
+// c20NoteErrFault counts a fired error fault. Caller holds r.mu.
+func (j *c20Judge) noteErrFault() {
+	f := j.fault
+	j.errFired = true
+	j.run.Count(fmt.Sprintf("fault_fired:error:status-%d", f.Status), 1)
+	if j.st.errStatusFired == nil {
+		j.st.errStatusFired = map[int]int{}
+	}
+	j.st.errStatusFired[f.Status]++
+	if f.Status != 0 {
+		if f.K == 0 {
+			j.st.errStatusFirst++
+		} else {
+			j.st.errStatusMid++
+			j.run.Count("fault_fired:error-with-status:mid-paging", 1)
+		}
+		if f.Cluster == j.c.Local {
+			j.st.errStatusLocal++
+			j.run.Count("fault_fired:error-with-status:local-cluster", 1)
+		} else {
+			j.st.errStatusRemote++
+			j.run.Count("fault_fired:error-with-status:remote-cluster", 1)
+		}
+	}
+}
+
+// errSwallowed: an injected error did not fail the request.
+func (j *c20Judge) errSwallowed(sig, detail string, got map[string]bool) {
+	for u := range j.e.Want {
+		if !got[u] {
+			j.missing++
+		}
+	}
+	detail += fmt.Sprintf("; %d of the %d requested existing objects are missing from the answer", j.missing, len(j.e.Want))
+	if j.gatherErr {
+		j.swallowed = true
+		return
+	}
+	j.bad(sig, detail)
 }
 
 func (j *c20Judge) bad(sig, detail string) {
@@ -786,7 +864,18 @@ func (j *c20Judge) judge() int {
 		if j.fault != nil {
 			if r.fired {
 				evals++
-				if out.Err == nil {
+				if j.fault.Kind == "error" {
+					j.noteErrFault()
+				}
+				if out.Err == nil && j.fault.Kind == "error" {
+					got := map[string]bool{}
+					for _, t := range traced {
+						if t.ok {
+							got[t.inst.UUID] = true
+						}
+					}
+					j.errSwallowed("C20:F2:no-error:error:local-only", fmt.Sprintf("local backend call #%d returned an error (status %d), request succeeded with %d items", j.fault.K, j.fault.Status, len(out.Items)), got)
+				} else if out.Err == nil {
 					what := j.fault.Kind
 					if what == "ctx-cancel" {
 						what = "backend-error-after-request-context-ended"
@@ -862,6 +951,9 @@ func (j *c20Judge) judge() int {
 		j.run.Count("fault_fired:"+j.fault.Kind, 1)
 		j.st.faultsFired++
 		evals++
+		if j.fault.Kind == "error" {
+			j.noteErrFault()
+		}
 		if j.fault.Kind == "ctx-cancel" {
 			if r.othersHadDone {
 				j.run.Count("ctx_cancel_after_all_other_backends_had_answered", 1)
@@ -888,11 +980,16 @@ func (j *c20Judge) judge() int {
 				}
 			}
 			j.bad("C20:F2:no-error:backend-error-after-request-context-ended", fmt.Sprintf("the request context was cancelled while backend %s call #%d was in flight (%s, other backends observe it: %v) and that call ended with the context's error; the request nevertheless succeeded with %d items, %d of the %d requested existing objects are missing", j.fault.Cluster, j.fault.K, j.fault.Wait, j.fault.OthersObserve, len(out.Items), missing, len(e.Want)))
-		} else if out.Err == nil {
-			sig := "C20:F2:no-error:" + j.fault.Kind
-			if j.fault.Kind != "error" {
-				sig = "C20:F2:no-error:no-progress-page:" + j.fault.Kind
+		} else if out.Err == nil && j.fault.Kind == "error" {
+			got := map[string]bool{}
+			for _, t := range traced {
+				if t.ok {
+					got[t.inst.UUID] = true
+				}
 			}
+			j.errSwallowed("C20:F2:no-error:error", fmt.Sprintf("backend %s call #%d returned an error (status %d); the request nevertheless succeeded with %d items", j.fault.Cluster, j.fault.K, j.fault.Status, len(out.Items)), got)
+		} else if out.Err == nil {
+			sig := "C20:F2:no-error:no-progress-page:" + j.fault.Kind
 			j.bad(sig, fmt.Sprintf("backend %s call #%d was made to %s; the request nevertheless succeeded with %d items", j.fault.Cluster, j.fault.K, j.fault.Kind, len(out.Items)))
 		} else if len(out.Items) > 0 {
 			j.run.Count("error_returned_with_partial_items(unjudged)", 1)
@@ -1408,7 +1505,9 @@ func c20RunCase(run *verifkit.Run, st *c20Stats, c *c20Case, rng *verifkit.Rand,
 			perBackendFF[cl.Backend]++
 		}
 		for _, cl := range calls {
-			faults := []c20Fault{{Cluster: cl.Backend, K: cl.K, Kind: "error"}}
+			// an error at this call, once per HTTP status it may carry
+			c20ErrorFaults(run, st, c, &e, cl, rng)
+			var faults []c20Fault
 			if e.Class != "local-only" {
 				faults = append(faults, c20Fault{Cluster: cl.Backend, K: cl.K, Kind: npKinds[rng.Intn(len(npKinds))], Sticky: rng.Bool()})
 			}
@@ -1457,6 +1556,63 @@ func c20RunCase(run *verifkit.Run, st *c20Stats, c *c20Case, rng *verifkit.Rand,
 	}
 }
 
+// c20ErrorFaults re-runs the request with backend call cl ending in an error,
+// once for each status of c20ErrStatuses, and reports the swallowed ones
+// together: the signature names the statuses only if some (not all) of the
+// injected errors were swallowed.
+func c20ErrorFaults(run *verifkit.Run, st *c20Stats, c *c20Case, e *c20Expect, cl c20CallRec, rng *verifkit.Rand) {
+	var fired, swallowed []int
+	var first *c20Judge
+	for _, status := range c20ErrStatuses {
+		f := &c20Fault{Cluster: cl.Backend, K: cl.K, Kind: "error", Status: status}
+		if status != 0 {
+			f.Carrier = rng.PickStr("httpserver", "transaction")
+		}
+		fr, fout := c20Execute(c, e, f)
+		run.Count("requests", 1)
+		run.Count("requests_fault:error", 1)
+		fj := &c20Judge{st: st, run: run, c: c, e: e, fault: f, r: fr, out: fout, gatherErr: true}
+		run.Eval(fj.judge())
+		fr.mu.Lock()
+		run.CountMax("max_backend_calls_one_request", len(fr.calls))
+		fr.mu.Unlock()
+		if fj.errFired {
+			fired = append(fired, status)
+		}
+		if fj.swallowed {
+			swallowed = append(swallowed, status)
+			if first == nil {
+				first = fj
+			}
+		}
+	}
+	if first == nil {
+		return
+	}
+	sig := "C20:F2:no-error:error"
+	if len(swallowed) < len(fired) {
+		var l []string
+		for _, s := range swallowed {
+			if s == 0 {
+				l = append(l, "none")
+			} else {
+				l = append(l, fmt.Sprint(s))
+			}
+		}
+		sig += ":only-status-" + strings.Join(l, "+")
+	}
+	if e.Class == "local-only" {
+		sig += ":local-only"
+	}
+	where := "its first call"
+	if cl.K > 0 {
+		where = fmt.Sprintf("call #%d, in the middle of paging", cl.K)
+	}
+	first.r.mu.Lock()
+	defer first.r.mu.Unlock()
+	first.bad(sig, fmt.Sprintf("backend %s ended %s with an error; injected with statuses %v (0: plain error), the request succeeded for %v and failed for the others; with status %d it returned %d items, %d of the %d requested existing objects are missing", cl.Backend, where, fired, swallowed, first.fault.Status, len(first.out.Items), first.missing, len(e.Want)))
+}
+
 func TestVerifC20(t *testing.T) {
 	run := verifkit.Start(t, "C20")
 	defer run.Finish()
@@ -1485,6 +1641,17 @@ func TestVerifC20(t *testing.T) {
 		}
 		if st.ctxCancelAfterOthers == 0 {
 			run.Inconclusive("C20: the request context was never cancelled during a backend call after the other backends had answered")
+		}
+		for _, s := range c20ErrStatuses {
+			if st.errStatusFired[s] == 0 {
+				run.Inconclusive(fmt.Sprintf("C20: no injected backend error with status %d (0: plain) was ever reached", s))
+			}
+		}
+		if st.errStatusFirst == 0 || st.errStatusMid == 0 {
+			run.Inconclusive("C20: errors carrying an HTTP status were not injected both at a first call and in the middle of paging")
+		}
+		if st.errStatusLocal == 0 || st.errStatusRemote == 0 {
+			run.Inconclusive("C20: errors carrying an HTTP status were not injected both at the local and at a remote cluster")
 		}
 		if st.f1Judged == 0 {
 			run.Inconclusive("C20: no successful split answer was judged (F1)")
